@@ -21,6 +21,7 @@ import (
 	"fmt"
 	"net/netip"
 	"runtime"
+	"slices"
 	"testing"
 	"time"
 
@@ -318,11 +319,14 @@ func TestVerifC32(t *testing.T) {
 				r.Count("late_queued_packets_expected", 1)
 			}
 			r.Count("queued_packets_expected_on_completion", len(want))
-			if lateQueue && !lateStored && allowed(latePort) && len(got) == len(want)+1 && got[len(got)-1] == lateID && c32Equal(got[:len(got)-1], want) {
+			if lateQueue && !lateStored && allowed(latePort) && len(got) == len(want)+1 {
 				// the packet written to the tun during completion was not taken into the queue (it was full, or the tun reader
-				// only got to it once the tunnel was up): it then goes out as ordinary traffic behind the released queue
-				r.Count("late_packet_sent_as_ordinary_traffic_after_the_queue", 1)
-				got = got[:len(got)-1]
+				// only got to it once the tunnel was up): it then goes out as ordinary traffic, on the tun reader's own routine,
+				// anywhere among the packets the completing routine is releasing
+				if i := slices.Index(got, lateID); i >= 0 && c32Equal(slices.Delete(slices.Clone(got), i, i+1), want) {
+					r.Count("late_packet_sent_as_ordinary_traffic_while_the_queue_was_released", 1)
+					got = slices.Delete(slices.Clone(got), i, i+1)
+				}
 			}
 			if !c32Equal(got, want) {
 				key := "C32/queued-packets-released-wrongly"
